@@ -11,7 +11,12 @@ Open Scope R_scope.
 (* ------------------------------------------------------------------------------------------ *)
 (* 1. compute_batch_gradients: amplitude gradient = positive phase - (sum_{v in vk} grad E(v)) / |neg_batch| ;
       the divisor is the NEGATIVE batch size; entrywise, for every architecture.                *)
+(* definitional: restates the model (cd_negative divides by [length neg] because CDStep.v says so; what the
+   theorem adds is the entrywise reading of the list-level definition under explicit shape guards).
+   Positive phase and vk are INPUTS of the model: "the batch's positive phase" is C03, "reached by k Gibbs
+   steps" is C05; both are tied to the code only by this property's check. *)
 Theorem C06_cd_gradient_am_binary : forall (am : brbm) g0 rest (neg vk : list bits) i,
+  (0 < length neg)%nat ->
   length (bW am) = length (bc am) ->
   Forall (fun v => length v = length (bb am)) vk ->
   length g0 = b_num_pars am -> (i < b_num_pars am)%nat ->
@@ -20,7 +25,9 @@ Theorem C06_cd_gradient_am_binary : forall (am : brbm) g0 rest (neg vk : list bi
 Proof. exact cd_gradient_am_binary. Qed.
 Print Assumptions C06_cd_gradient_am_binary.
 
+(* definitional: restates the model *)
 Theorem C06_cd_gradient_am_purification : forall (am : prbm) g0 rest (neg vk : list bits) i,
+  (0 < length neg)%nat ->
   length (pW am) = length (pc am) -> length (pU am) = length (pd am) ->
   Forall (fun v => length v = length (pb am)) vk ->
   length g0 = p_num_pars am -> (i < p_num_pars am)%nat ->
@@ -30,7 +37,9 @@ Proof. exact cd_gradient_am_purification. Qed.
 Print Assumptions C06_cd_gradient_am_purification.
 
 (* the Gibbs chain keeps the batch shape (|vk| = |neg|): the negative phase is the mean over vk *)
+(* definitional: restates the model *)
 Theorem C06_cd_negative_is_mean : forall (am : brbm) g0 rest (neg vk : list bits) i,
+  (0 < length neg)%nat ->
   length (bW am) = length (bc am) ->
   Forall (fun v => length v = length (bb am)) vk ->
   length g0 = b_num_pars am -> (i < b_num_pars am)%nat -> length vk = length neg ->
@@ -44,20 +53,24 @@ Example C06_cd_guards_satisfiable :
   let am := mkB [[1; 2]] [3; 4] [5] in
   length (bW am) = length (bc am)
   /\ Forall (fun v => length v = length (bb am)) [[true; false]; [false; true]]
-  /\ length [0; 0; 0; 0; 0] = b_num_pars am.
+  /\ length [0; 0; 0; 0; 0] = b_num_pars am
+  /\ (0 < length [[true; true]; [false; false]])%nat.
 Proof. simpl. repeat split; repeat constructor. Qed.
 
 (* 2. the phase network receives the positive phase only (no negative phase), both state families *)
+(* definitional: restates the model *)
 Theorem C06_cd_gradient_ph_binary : forall (T : Type) (O : NumOps T) (am : brbm) pos neg vk j, (0 < j)%nat ->
   nth j (cbg_binary O am pos neg vk) [] = nth j pos [].
 Proof. exact @cd_gradient_ph_binary. Qed.
 Print Assumptions C06_cd_gradient_ph_binary.
 
+(* definitional: restates the model *)
 Theorem C06_cd_gradient_ph_purification : forall (T : Type) (O : NumOps T) (am : prbm) pos neg vk j, (0 < j)%nat ->
   nth j (cbg_purification O am pos neg vk) [] = nth j pos [].
 Proof. exact @cd_gradient_ph_purification. Qed.
 Print Assumptions C06_cd_gradient_ph_purification.
 
+(* definitional: restates the model *)
 Theorem C06_cd_keeps_the_network_list : forall (T : Type) (O : NumOps T) (pos : list (list T)) negative,
   tl (cd_apply O pos negative) = tl pos /\ length (cd_apply O pos negative) = length pos.
 Proof. exact @cd_gradient_ph. Qed.
@@ -117,6 +130,7 @@ Print Assumptions C06_energy_grad_lands_purification.
 
 (* ------------------------------------------------------------------------------------------ *)
 (* 4. plain SGD: theta' - theta = -lr * g entrywise                                            *)
+(* definitional: restates the model *)
 Theorem C06_sgd_moves_by_minus_lr_grad : forall lr (th g : list R) i,
   length th = length g -> (i < length th)%nat ->
   nth i (sgd_step ROps lr th g) 0 - nth i th 0 = - lr * nth i g 0.
